@@ -7,7 +7,7 @@ using namespace gx;
 #endif
 template<class S,class Tg> void c02_ode(hx::Rec<S>& R){
   typedef sym::Jet<S,1> J; typedef typename Tg::template T<J> TJ; typedef typename Tg::template T<S> T;
-  T t=Tg::maket(R,"t",0);
+  T t=MAKET(Tg,R,"t",0);
   typename TJ::DataType tv; for(int i=0;i<Tg::DoF;i++){ J x(t.coeffs()(i)); x.v[0]=t.coeffs()(i); tv(i)=x; }  // s*t at s=1, d/ds = t
   TJ tj(tv);
   auto X=tj.exp();
